@@ -7,7 +7,7 @@ import subprocess
 
 import vlib
 
-GOALS = ["G%02d" % i for i in range(1, 32)]
+GOALS = ["A01", "A02", "A03"] + ["G%02d" % i for i in range(4, 32)]
 # slices: (name, constants overriding the base); every goal is tried in every applicable slice
 BASE = dict(NReq=3, NOrig=1, MaxDial=3, MaxTick=0, AsBuilt="{}", MaxIdles="{1}", IdleTimeouts="{0}",
             Protos="{TRUE, FALSE}", Faults="AllFaults", Spurious="FALSE", AllowDrop="FALSE")
@@ -24,7 +24,9 @@ SPECIAL = {
     "G29": dict(MaxTick=1, IdleTimeouts="{2}", Protos="{FALSE}", MaxIdles="{2}", Faults="NoFaults"),
     "G30": dict(AllowDrop="TRUE", MaxDial=2),
     "G31": dict(AllowDrop="TRUE", MaxDial=2, Protos="{FALSE}"),
-    "G02": dict(Protos="{FALSE}", Faults="NoFaults"),
+    "A02": dict(Protos="{FALSE}", Faults="NoFaults"),
+    "A01": dict(Protos="{FALSE}", Faults="CloseOnly"),
+    "A03": dict(Protos="{FALSE}", Faults="NoFaults"),
     "G12": dict(Protos="{FALSE}", Faults="NoFaults"),
     "G15": dict(Protos="{FALSE}", Faults="NoFaults"),
     "G18": dict(Protos="{FALSE}", Faults="NoFaults"),
@@ -61,7 +63,7 @@ def _one(pid, goal, sname, consts, outdir):
     lines = ["CONSTANTS"]
     for k, v in consts.items():
         lines.append(f"  {k} <- {v}" if k == "Faults" else f"  {k} = {v}")
-    lines += ["INIT Init", "NEXT Next", "VIEW View", f"INVARIANT Not{goal}", "CHECK_DEADLOCK FALSE"]
+    lines += ["INIT Init", "NEXT Next", "VIEW View", (f"PROPERTY Not{goal}" if goal.startswith("A") else f"INVARIANT Not{goal}"), "CHECK_DEADLOCK FALSE"]
     open(cfg, "w").write("\n".join(lines) + "\n")
     dump = os.path.join(outdir, f"goal-{goal}-{sname}.json")
     if os.path.exists(dump):
@@ -77,7 +79,7 @@ def _one(pid, goal, sname, consts, outdir):
     finally:
         os.remove(cfg)
         subprocess.run(["rm", "-rf", meta])
-    if f"Invariant Not{goal} is violated" not in out or not os.path.exists(dump):
+    if (f"Invariant Not{goal} is violated" not in out and f"Action property Not{goal} is violated" not in out) or not os.path.exists(dump):
         return goal, sname, None, ("unreachable-in-slice" if "No error has been found" in out else "tool:" + out[-300:])
     tr = json.load(open(dump))["counterexample"]["action"]
     steps = []
